@@ -1,5 +1,6 @@
 import Gtree.Lemmas.SourceRefines
 import Gtree.Lemmas.HeapGrower
+import Gtree.Lemmas.HeapSpread
 import Gtree.Lemmas.Output
 /-
   C01 — text output obeys the tree-drawing rule (property theorems; helper lemmas live in Lemmas/).
@@ -149,4 +150,27 @@ theorem C01_grower_is_the_source (dg : SrcH.defaultGrowerSimple) (ts : List T) (
   congr 1
   funext t
   exact growRoot_rows (SrcH.fmtOf dg) t
+end Gtree
+
+namespace Gtree
+/-- Tie to the source, pointer code included (heap mode, regenerated on every run): the TEXT PRINTER of
+    simple_tree_spreader.go (`defaultSpreaderSimple.spread`, the recursion `spreadBranch` with its `fmt.Fprint`) after
+    the GROWER, both translated over an explicit heap; the caller's writer is a fault oracle.  For every heap that
+    holds a forest (all pointers different), every four branch strings, every writer and every fuel above
+    `2·size + 1`: growing succeeds and the printer then issues one `Write` per node in pre-order — exactly the model's
+    `textChunks` of every root (the line of the drawing rule and a line feed) — until a `Write` fails. -/
+theorem C01_printer_is_the_source (dg : SrcH.defaultGrowerSimple) (ds : SrcH.defaultSpreaderSimple) (ts : List T)
+    (h : SrcH.Heap) (rs : List Go.Ptr) (fuel : Nat) (w : Go.Writer)
+    (hr : SrcH.ReprRoots h ts rs) (hnd : (SrcH.ptrsKids h ts rs).Nodup) (hf : 2 * sizeList ts + 1 ≤ fuel)
+    (hv : dg.enabledValidation = false) :
+    ∃ h', SrcH.defaultGrowerSimple.grow fuel h dg rs = some (h', none) ∧
+      SrcH.defaultSpreaderSimple.spread fuel h' w ds rs
+        = some (SrcH.writeAll w (ts.flatMap (textChunks (SrcH.fmtOf dg)))) := by
+  obtain ⟨h', hrun, hrest⟩ := SrcH.grow_forest dg ts h rs fuel hr hnd hf
+  have he : SrcH.expErr dg (ts.flatMap (growRoot (SrcH.fmtOf dg))) = none := by simp [SrcH.expErr, hv]
+  rw [he] at hrun
+  obtain ⟨hs, _, hrd⟩ := hrest he
+  refine ⟨h', hrun, ?_⟩
+  rw [SrcH.spread_heap ds h' ts w rs fuel (SrcH.ReprRoots_shape hs ts rs hr) (by omega), hrd, List.map_flatMap]
+  rfl
 end Gtree
